@@ -460,6 +460,34 @@ def inline_temps(fn, known_locals):
     return changed
 
 
+# ------------------------------------------------------------------------------------------ N4
+class _SliceCalls(ast.NodeTransformer):
+    """x[slice(a, b)] -> x[a:b]   (what an inlined `slice(...)`-returning helper leaves behind)"""
+
+    changed = False
+
+    def visit_Subscript(self, node):
+        self.generic_visit(node)
+        sl = node.slice
+        if isinstance(sl, ast.Call) and isinstance(sl.func, ast.Name) and sl.func.id == "slice" and not sl.keywords and 1 <= len(sl.args) <= 3:
+            a = list(sl.args)
+            lower, upper, step = (None, a[0], None) if len(a) == 1 else (a[0], a[1], a[2] if len(a) == 3 else None)
+            none = lambda x: isinstance(x, ast.Constant) and x.value is None
+            node.slice = ast.copy_location(ast.Slice(lower=None if lower is None or none(lower) else lower, upper=None if none(upper) else upper, step=None if step is None or none(step) else step), sl)
+            _SliceCalls.changed = True
+        return node
+
+    def visit_FunctionDef(self, node):
+        return node
+
+
+def slice_calls(fn):
+    _SliceCalls.changed = False
+    t = _SliceCalls()
+    fn.body = [t.visit(s) if not isinstance(s, (ast.FunctionDef, ast.ClassDef)) else s for s in fn.body]
+    return _SliceCalls.changed
+
+
 # ------------------------------------------------------------------------------------------ driver
 def normalize_tree(raw_tree, modname):
     base = baseline().get(modname)
@@ -506,6 +534,8 @@ def normalize_tree(raw_tree, modname):
             c1 = inline_helpers(f, owner_cls, mod_helpers, cls_helpers) if (mod_helpers or cls_helpers) else False
             c3 = expand_ifexp(f)
             c2 = inline_temps(f, set(base["functions"].get(q, [])))
+            if slice_calls(f):
+                did.append("N4")
             if c1:
                 did.append("N1")
             if c2:
